@@ -34,6 +34,11 @@ ASSUMPTIONS = [
 ]
 
 ALPHA = ["a", "\u00e9", "\u20ac", "\U0001F600"]            # 1-, 2-, 3-, 4-byte characters
+# boundary-byte characters: continuation bytes 0x80 / 0xBF, extremes of each encoding length
+BALPHA = ["a", "\u0080", "\u00bf", "\u00c0", "\u00ff", "\u07ff",                          # C2 80, C2 BF, C3 80, C3 BF, DF BF
+          "\u0800", "\u1000", "\ud7ff", "\ue000", "\ufffd", "\uffff",                     # E0 A0 80, E1 80 80, ED 9F BF, EE 80 80, EF BF BD, EF BF BF
+          "\U00010000", "\U0001F43F", "\U0003FFFF", "\U00040000", "\U0010FFFF"]           # F0 90 80 80, F0 9F 90 BF, F0 BF BF BF, F1 80 80 80, F4 8F BF BF
+BALPHA3 = ["a", "\u00bf", "\u07ff", "\u0800", "\ufffd", "\U00010000", "\U0001F43F", "\U0010FFFF"]
 FN = {"index": 0, "len": 3, "is_alpha": 4, "is_digit": 5, "is_hexdigit": 6, "count_chars": 7, "char_byte_index": 8,
       "find": 9, "replace": 10, "split": 11, "starts_with": 12, "ends_with": 13, "to_num": 14, "to_bytes": 15,
       "to_code_points": 16, "from_ascii": 17, "from_utf8": 18, "from_code_points": 19, "iter_manual": 20,
@@ -325,6 +330,37 @@ def gen_groups(quick):
         pre = [(st(p), rel(p)) for p in (short if quick or big else strings(3))]
         G.append(Group("starts_with", s, [pre], ("starts_with",)))
         G.append(Group("ends_with", s, [pre], ("ends_with",)))
+    # --- BOUNDARY-BYTE alphabet: characters whose continuation bytes are 0x80 / 0xBF and the extremes of every
+    # encoding length (a hand-written continuation test `0x80..0xBF`, an off-by-one lead-byte class, ... only show
+    # on these); every function that walks bytes sees every string of <= 2 of them
+    for t in strings(2, BALPHA) + ([] if quick else strings(3, BALPHA3)[1 + len(BALPHA3) + len(BALPHA3) ** 2:]):
+        s = st(t)
+        L = len(t.encode("utf-8"))
+        bd = boundaries(t)
+        nch = len(t)
+        offs = [(num(k), int_label(k, L, bd)) for k in range(0, L + 2)]
+        negs = [(num(k), int_label(k, L, bd)) for k in range(-L - 1, 0)]
+        G.append(Group("index", s, [offs + negs + [(HALF, "0.5"), (P63, "2^63"), (NIL, "nil")]], ("str", "bb")))
+        G.append(one("iter_manual", s, [], ("iter", "bb %d chars" % nch), extra=nch + 2))
+        G.append(one("for", s, [], ("for", "bb %d chars" % nch)))
+        for f in ("len", "count_chars", "to_bytes", "to_code_points"):
+            G.append(one(f, s, [], (f, "bb %d chars" % nch)))
+        cbi = list(range(nch + 1))
+        G.append(Group("char_byte_index", s, [[(num(k), int_label(k, nch, cbi)) for k in range(-nch - 1, nch + 2)]], ("cbi", "bb")))
+        G.append(one("from_code_points", NIL, [vec(*[num(ord(c)) for c in t])], ("from_code_points", "bb round trip")))
+        G.append(one("from_utf8", NIL, [vec(*[num(b) for b in t.encode("utf-8")])], ("from_utf8", "bb round trip")))
+        if nch > 2:
+            continue
+        ends = offs[:-1] if nch == 2 else offs + negs
+        G.append(Group("index", s, [ends, ends], ("str-range", "bb"), as_range=True))
+        subs = [(st(c), "1-char %s" % ("hit" if c in t else "miss")) for c in BALPHA]
+        G.append(Group("find", s, [subs, [(num(k), int_label(k, L, bd)) for k in bd[:-1]] or [(num(0), "0")]], ("find", "bb")))
+        if nch == 2:
+            G.append(Group("find", s, [[(s, "2-char hit")], [(num(0), "0"), (num(bd[1]), "in"), (num(1), "+1")]], ("find", "bb")))
+        G.append(Group("split", s, [subs], ("split", "bb")))
+        G.append(Group("replace", s, [subs, [(st("a"), "new 1")]], ("replace", "bb")))
+        G.append(Group("starts_with", s, [subs], ("starts_with", "bb")))
+        G.append(Group("ends_with", s, [subs], ("ends_with", "bb")))
     # byte-level near misses: same lead byte, different continuation
     for a, b in [("\u00e9", "\u00e8"), ("\u20ac", "\u20ad"), ("\U0001F600", "\U0001F601"), ("a\u00e9", "a\u00e8")]:
         for f in ("starts_with", "ends_with"):
